@@ -634,7 +634,7 @@ func queryKey(q string) string {
 	return b.String()
 }
 
-// raceFast runs z3-new and cvc5 side by side for two seconds; the first
+// raceFast runs z3-new (2 s) and cvc5 (6 s) side by side; the first
 // `unsat` wins (each decides goals the other needs much longer for).
 func raceFast(f string) *solveResult {
 	ctx, cancel := context.WithCancel(context.Background())
@@ -644,7 +644,7 @@ func raceFast(f string) *solveResult {
 		out  string
 		ms   int64
 	}
-	cmds := [][]string{{"z3-new", "-T:2", f}, {"cvc5", "--full-saturate-quant", "--tlimit=2000", f}}
+	cmds := [][]string{{"z3-new", "-T:2", f}, {"cvc5", "--full-saturate-quant", "--tlimit=6000", f}}
 	ch := make(chan ans, len(cmds))
 	for _, c := range cmds {
 		go func(c []string) {
